@@ -26,7 +26,7 @@ FAMS = ("qp", "oscillating", "sinus", "exp_wall", "qp_quartic", "quantized", "of
 
 
 def floors(tier):
-    return {"calls": 2500, "multi_trial_calls": 500, "returned_none": 40, "points_checked": 6000, "step_at_max": 100, "calls_with_a_nan_trial_value": 80, "__nontrivial__": 500}
+    return {"calls": 2500, "multi_trial_calls": 500, "returned_none": 40, "points_checked": 6000, "step_at_max": 100, "calls_with_a_nan_trial_value": 80, "calls_with_an_optimisation_nested_in_the_objective": 150, "__nontrivial__": 500}
 
 
 def make_objective(rng, fam, n):
@@ -178,8 +178,22 @@ def run(spec):
             mode = "callable" if rng.random() < 0.8 else "2-point"
             log = []
 
-            def fun(x, _f=f):
+            nested = {"on": False, "use": bool(j % 6 == 4), "runs": 0}
+
+            def inner_problem():
+                # another optimisation (unbounded: its own maximum step is huge) run from inside the objective while the outer
+                # line search is in progress, as a bilevel / value-function objective does
+                from lbfgsb import minimize_lbfgsb
+
+                c = np.array([0.3, -0.7])
+                minimize_lbfgsb(x0=np.array([2.0, 1.5]), fun=lambda z: float(np.sum((z - c) ** 4) + z @ z), jac=lambda z: 4 * (z - c) ** 3 + 2 * z,
+                                maxiter=3, maxcor=2)
+                nested["runs"] += 1
+
+            def fun(x, _f=f, nested=nested):
                 xr = np.array(x, copy=True)
+                if nested["on"] and nested["use"]:
+                    inner_problem()
                 v = _f(xr)
                 log.append(("f", xr, v))
                 return v
@@ -220,7 +234,11 @@ def run(spec):
                 lgr = probes.CapturingLogger().logger
                 out.count("calls_with_logging")
             try:
+                nested["on"] = True
                 ret = line_search(x0.copy(), f0, g0.copy(), d.copy(), lb, ub, above, max_user, is_boxed, sf, ftol, gtol, xtol, cap, ipr, lgr)
+                nested["on"] = False
+                if nested["runs"]:
+                    out.count("calls_with_an_optimisation_nested_in_the_objective")
             except Exception as e:
                 out.violate("line_search_raised", f"{where}: {e!r}; x0={x0.tolist()} d={d.tolist()} lb={lb.tolist()} ub={ub.tolist()}", family=fam)
                 break
